@@ -176,6 +176,38 @@ def run_stage(prop, stage, tier, rng, driver, res, known, extra_lines=None):
         import shutil
         shutil.rmtree(workdir, ignore_errors=True)
 
+def shrink(prop, stage, line, cls, tier, rng, driver, known, budget=40):
+    """greedy minimisation of a failing scenario: drop API calls (client / e2e lines) or input lines (app lines) one at a
+    time, from the end, as long as the same class of violation is still reported; returns the reduced line with the
+    implementation's output, or None when nothing could be removed"""
+    head = line.split(" => ")[0]
+    parts = head.split(" ")
+    if parts[0] in ("client", "e2e") and len(parts) > 3:
+        fixed, items, join = parts[:2], parts[2:], (lambda its: " ".join(fixed + its))
+    elif parts[0] == "app" and len(parts) == 4 and "," in parts[3]:
+        fixed, items, join = parts[:3], parts[3].split(","), (lambda its: " ".join(fixed + [",".join(its)]))
+    else:
+        return None
+    def fails(its):
+        r2 = Result()
+        try:
+            run_stage(prop, stage, tier, rng, driver, r2, known, extra_lines=[join(its)])
+        except Exception:
+            return None
+        hit = [v for v in r2.violations if v[3] == cls]
+        return hit[0][1] if hit else None
+    best = None
+    i = len(items) - 1
+    t0 = time.time()
+    while i >= 0 and budget > 0 and len(items) > 1 and time.time() - t0 < 45:
+        cand = items[:i] + items[i + 1:]
+        budget -= 1
+        got = fails(cand)
+        if got:
+            items, best = cand, got
+        i -= 1
+    return best
+
 def write_replay(pid, tier, seed, kind, payload):
     d = os.path.join(ROOT, "replays", pid)
     os.makedirs(d, exist_ok=True)
@@ -246,8 +278,19 @@ def check(pid, tier):
         shown = []
         for cls, vs in byc.items():
             vs = sorted(vs, key=lambda v: len(v[1]))
-            shown.append({"class": cls, "count": len(vs), "stage": vs[0][0], "scenario": vs[0][1], "verdict": vs[0][2],
-                          "more": [v[1] for v in vs[1:4]]})
+            entry = {"class": cls, "count": len(vs), "stage": vs[0][0], "scenario": vs[0][1], "verdict": vs[0][2],
+                     "more": [v[1] for v in vs[1:4]]}
+            # a minimal history for the first classes (bounded effort; the original scenario stays in the replay as well)
+            if driver and len(shown) < 3 and not os.environ.get("VERIF_NO_SHRINK"):
+                st = [x for x in prop["stages"] if x["name"] == vs[0][0]]
+                if st:
+                    try:
+                        small = shrink(prop, st[0], vs[0][1], cls, tier, rng.fork("shrink"), driver, known)
+                    except Exception:
+                        small = None
+                    if small:
+                        entry["minimized"] = small
+            shown.append(entry)
         p = write_replay(pid, tier, seed, "violation", {"failures": shown,
             "how_to_replay": "python3 tools/vcheck.py --replay <this file>"})
         print("VIOLATION property=%s replay=%s" % (pid, p))
@@ -305,6 +348,8 @@ def replay(path):
     for f in items:
         stage = [s for s in prop["stages"] if s["name"] == f["stage"]][0]
         lines = [f["scenario"].split(" => ")[0]] + [m.split(" => ")[0] for m in f.get("more", [])]
+        if f.get("minimized"):
+            lines.insert(0, f["minimized"].split(" => ")[0])
         res = Result()
         run_stage(prop, stage, rp.get("tier", "quick"), Rng(rp.get("seed", 0)), driver, res, known, extra_lines=lines)
         for v in res.violations:
